@@ -556,6 +556,62 @@ theorem rotary_interleaved_deinterleave (h : Nat) (x c s : Nat → K) (i : Nat) 
 
 end RotaryInterleaved
 
+/-- **`instance_to_group_check_sound`** — for EVERY instance the check accepts: the InstanceNormalization really is
+the identity-affine one (unit weight, zero bias, constants), the input is rank 4, the first Reshape is to
+`[0, g, -1]` (so its rows are the `g` groups of `instance_to_group_norm`), the second Reshape restores a fully static
+shape equal to the input's, and the per-channel weight and bias have shape `[·,1,1]`. -/
+theorem instance_to_group_check_sound (i : I2gIn) (h : i2gOk i = true) :
+    i.wnConst = true ∧ i.wOnes = true ∧ i.bZeros = true ∧ i.x.length = 4
+    ∧ i.wf.length = 3 ∧ i.bf.length = 3 ∧ i.adj = some [0, (i.g : Int), -1]
+    ∧ (∃ o, i.orig = some o ∧ listEqShape o i.x = true) := by
+  unfold i2gOk at h
+  simp only [Bool.and_eq_true, beq_iff_eq] at h
+  obtain ⟨⟨⟨⟨⟨⟨⟨⟨⟨h1, h2⟩, h3⟩, h4⟩, h5⟩, h6⟩, _⟩, _⟩, h9⟩, h10⟩ := h
+  refine ⟨h1, h2, h3, h6, by omega, by omega, h9, ?_⟩
+  cases ho : i.orig with
+  | none => simp [ho] at h10
+  | some o => exact ⟨o, rfl, by simpa [ho] using h10⟩
+
+/-- `listEqShape` accepts only fully static shapes: every dim is the corresponding integer. -/
+theorem listEqShape_static : ∀ (o : List Int) (sh : Shape), listEqShape o sh = true →
+    sh.all Dim.isInt = true ∧ sh.length = o.length := by
+  intro o
+  induction o with
+  | nil => intro sh h; cases sh <;> simp_all [listEqShape]
+  | cons v vs ih =>
+    intro sh h
+    cases sh with
+    | nil => simp [listEqShape] at h
+    | cons d ds =>
+      simp only [listEqShape, Bool.and_eq_true] at h
+      obtain ⟨hd, ht⟩ := h
+      have := ih ds ht
+      cases d <;> simp_all [dimEqInt, Dim.isInt]
+
+/-- **Packed-weight slicing of `attention.py`**: the check's conditions on the three Slice bounds
+(`start1 = 0`, `end1 = start2`, `end2 = start3`, `end3 ≥ hidden`; ONNX clamps `end3` to `hidden`) make the three
+slices a partition of the projected hidden axis: every column lies in exactly one, and the sizes add up. -/
+theorem attention_slices_partition (hidden e1 e2 e3 : Nat) (h12 : e1 ≤ e2) (h2 : e2 ≤ hidden) (h3 : hidden ≤ e3) :
+    e1 + (e2 - e1) + (min e3 hidden - e2) = hidden
+    ∧ ∀ c, c < hidden →
+        (c < e1 ∧ ¬ (e1 ≤ c ∧ c < e2) ∧ ¬ (e2 ≤ c ∧ c < min e3 hidden))
+        ∨ (¬ c < e1 ∧ (e1 ≤ c ∧ c < e2) ∧ ¬ (e2 ≤ c ∧ c < min e3 hidden))
+        ∨ (¬ c < e1 ∧ ¬ (e1 ≤ c ∧ c < e2) ∧ (e2 ≤ c ∧ c < min e3 hidden)) := by
+  have hm : min e3 hidden = hidden := Nat.min_eq_right h3
+  rw [hm]
+  refine ⟨by omega, fun c _ => by omega⟩
+
+/-- **GQA head-size guard** (commit 971aae6), for EVERY instance: a statically known head size that is not a
+multiple of 16 — which onnxruntime's GroupQueryAttention with `do_rotary=1` rejects — is never fused. -/
+theorem gqa_head_size_guard (i : GqaIn) (dh : Nat) (hf : i.fix11 = true) (hq : dimAt i.q4 3 = some (.int dh))
+    (hbad : dh % 16 ≠ 0) : gqa i = "count=1/0" := by
+  unfold gqa
+  simp only [hf, hq, Bool.true_and]
+  have hb : (dh % 16 != 0) = true := by simpa using hbad
+  simp only [hb, if_true]
+  repeat' split
+  all_goals rfl
+
 /-- The mask flag never enters the GQA decision: the model (= the code, whose `… is None` test cannot fail on a
 structural mismatch) gives the same answer whether or not the mask is the causal-mask pattern (finding C19-F13). -/
 theorem gqa_mask_not_consulted (i : GqaIn) :
